@@ -67,7 +67,7 @@ func main() {
 		name string
 		run  func(lib.Flags, *lib.Result)
 	}{{"core", runCore}, {"nested", runNested}, {"events", runEvents}, {"rim", runRim}, {"rim2", runRim2}, {"rim3", runRim3},
-		{"rim4", runRim4}, {"rim5", runRim5}, {"rim6", runRim6}, {"models", runModels}} {
+		{"rim4", runRim4}, {"rim5", runRim5}, {"rim6", runRim6}, {"rim7", runRim7}, {"models", runModels}} {
 		if len(only) == 0 || only[fam.name] {
 			fam.run(f, res)
 		}
@@ -144,6 +144,14 @@ func replay(f lib.Flags) int {
 		ans, inFlight := runCreateCase(c)
 		createViolation(c, inFlight, m)
 		fmt.Printf("replay create %v -> %s\n", c, ans)
+	case "active":
+		var c activeCase
+		if err := json.Unmarshal(b, &c); err != nil {
+			lib.Fatal(err)
+		}
+		ans, changed := runActiveCase(c)
+		activeViolation(c, changed, m)
+		fmt.Printf("replay active %v -> %s\n", c, ans)
 	case "incl":
 		var c inclCase
 		if err := json.Unmarshal(b, &c); err != nil {
